@@ -29,7 +29,7 @@ func init() {
 	})
 	register(&propDef{
 		id:      "C29",
-		explain: "Structural necessary conditions of 'headers behave as an ordered case-insensitive multimap': (E11) as for C28, for header.h / cookies storage of both header types; (sibling) the special header names handled by the set / peek / peekAll / del / serialise paths of each header type are the same set, so a name stored in a dedicated field by one operation is found by the others; (E7) CopyTo writes every field of the destination header from the same field of the source; (accumulate) the generic Set-Cookie paths of the response header (setter switch and parser) append to the cookie list and never replace by key. (R-slot) a recycled entry handed out by allocArg has its key and value stored before it is kept, directly or by a scanner whose producing returns store them on every path; (R-iter) in the serialisers, the branch guarding the write of a stored field does not flow from a boolean merged at the head of the loop over the fields - the fate of a field depends on that field alone; (R-single) for a special name whose other values are kept in the generic list (Connection), every path of its case in setSpecialHeader stores into or deletes from that list, so a second Set replaces the first; Not decided: model agreement over operation sequences, parse/serialise round trip.",
+		explain: "Structural necessary conditions of 'headers behave as an ordered case-insensitive multimap': (E11) as for C28, for header.h / cookies storage of both header types; (sibling) the special header names handled by the set / peek / peekAll / del / serialise paths of each header type are the same set, so a name stored in a dedicated field by one operation is found by the others; (E7) CopyTo writes every field of the destination header from the same field of the source; (accumulate) the generic Set-Cookie paths of the response header (setter switch and parser) append to the cookie list and never replace by key. (R-slot) a recycled entry handed out by allocArg has its key and value stored before it is kept, directly or by a scanner whose producing returns store them on every path; (R-iter) in the serialisers, the branch guarding the write of a stored field does not flow from a boolean merged at the head of the loop over the fields - the fate of a field depends on that field alone; (R-single) for a special name whose other values are kept in the generic list (Connection), every path of its case in setSpecialHeader stores into or deletes from that list, so a second Set replaces the first; (R-del) every path through RequestHeader.del removes the asked-for name from the generic field list (or collects the lazily kept Cookie lines first), whatever special case it took; Not decided: model agreement over operation sequences, parse/serialise round trip.",
 		run: func(p *Prog, r *Report) {
 			runKVOrder(p, r, "C29")
 			runHeaderSiblings(p, r)
@@ -38,6 +38,7 @@ func init() {
 			runSlotFill(p, r, "C29")
 			runPerFieldDecision(p, r)
 			runSpecialSingleValued(p, r)
+			runDelCoversGenericList(p, r)
 		},
 	})
 }
@@ -1028,4 +1029,37 @@ func runPresenceByKey(p *Prog, r *Report) {
 		visit(f, 3)
 	}
 	r.Floor("R-has", "boolean presence routines reached from Args.Has", n, 2)
+}
+
+// runDelCoversGenericList (C29.R-del): a request header read from the wire keeps some specially handled names in
+// the generic field list - Cookie lines stay there until something collects them, and with special headers
+// disabled every name does. Deleting a name must therefore always look at the generic list too: every path through
+// RequestHeader.del passes the removal from the list (delAllArgs on h.h), whatever special case it took before.
+func runDelCoversGenericList(p *Prog, r *Report) {
+	fn := p.Func("(*RequestHeader).del")
+	if fn == nil {
+		r.Undecided("R-del", "(*RequestHeader).del", "not found")
+		return
+	}
+	removes := func(i ssa.Instruction) bool {
+		c, ok := i.(ssa.CallInstruction)
+		if !ok || c.Common().StaticCallee() == nil {
+			return false
+		}
+		nm := c.Common().StaticCallee().Name()
+		return strings.HasPrefix(nm, "delAllArgs") || nm == "collectCookies"
+	}
+	// the removal must take the key that was asked for (not a constant of one branch only)
+	hit, path := reachAvoiding(fn, nil, isReturn, func(i ssa.Instruction) bool {
+		if !removes(i) {
+			return false
+		}
+		c := i.(ssa.CallInstruction)
+		if c.Common().StaticCallee().Name() == "collectCookies" {
+			return true
+		}
+		return len(c.Common().Args) >= 2 && derivesFromValue(c.Common().Args[1], fn.Params[1])
+	}, nil)
+	r.Check("R-del", "RequestHeader.del removes the name from the generic field list on every path", hit == nil, p.Pos(fn.Pos()),
+		"a return is reachable without delAllArgs(h.h, key): on a header read from the wire the Cookie lines (and, with special headers disabled, every special name) still sit in the generic list, so Del leaves them visible to Peek, PeekAll, the cookie getters and the serialised header", blocksString(p, path)...)
 }
